@@ -1061,6 +1061,12 @@ func (p *Policy) validURL(rawurl string) (string, bool) {
 					-1,
 				)
 			}
+
+			// the exception is for base64 data wrapped over several
+			// lines: white space that is left now is not part of a URL
+			if strings.ContainsAny(rawurl, " \t\n") {
+				return "", false
+			}
 		}
 
 		// URLs are valid if they parse
